@@ -112,7 +112,11 @@ def signature(paths):
         stores = _project(rel, lambda e: e[0] not in ("return", "raise"))
         rs = _project(rel, lambda e: e[0] == "raise")
         if p.kind == "return":
-            rows["returns"].append((p.conds, (canon_effects(early) + " ; then " if early else "") + f"{p.value}"))
+            value = f"{p.value}"
+            loop = _quantifier_loop(value)
+            if loop is not None:
+                early, value = list(early) + [loop[0]], loop[1]
+            rows["returns"].append((p.conds, (canon_effects(early) + " ; then " if early else "") + value))
         elif p.kind == "raise":
             rows["raises"].append((p.conds, f"raise {p.value}"))
         if stores:
@@ -120,6 +124,40 @@ def signature(paths):
         if rs:
             rows["raises"].append((p.conds, canon_effects(rs)))
     return {k: _case_table(v) for k, v in rows.items()}
+
+
+def _quantifier_loop(value: str):
+    """`all(E for v in IT)` as a returned value is the loop `for v in IT: if not E: return False` followed by True (any:
+    dual) - the form in which a search loop with an early return is summarised.  (loop effect, final value) or None."""
+    for name, hit, miss in (("all", "False", "True"), ("any", "True", "False")):
+        pre = name + "([rep("
+        if not (value.startswith(pre) and value.endswith(")])")):
+            continue
+        inner = value[len(pre):-3]
+        depth, cut = 0, None
+        for i, ch in enumerate(inner):
+            if ch in "([{":
+                depth += 1
+            elif ch in ")]}":
+                depth -= 1
+                if depth < 0:
+                    return None
+            elif ch == "," and depth == 0 and inner[i:i + 2] == ", ":
+                cut = i
+                break
+        if cut is None:
+            return None
+        header, elem = inner[:cut], inner[cut + 2:]
+        if "rep(" in elem or "if(" in elem:
+            return None
+        negated = elem.startswith("not (") and elem.endswith(")") and " and " in elem
+        cond = elem[5:-1] if negated else elem
+        stop = (("return", hit),)
+        # all: leave with False when E fails; any: leave with True when E holds
+        fails_first = (name == "all") != negated
+        node = ("if", cond, (), stop) if fails_first else ("if", cond, stop, ())
+        return ("rep", header, (node,)), miss
+    return None
 
 
 def _cond_atoms(ctext: str):
@@ -213,6 +251,43 @@ def _members(t: str):
     return [(m[1:], m[0] == "+") for m in out]
 
 
+def _truth_tables(universe, rows):
+    """Larger universes: per outcome, the set of assignments that lead to it, as one bit vector over all 2^n assignments
+    (bit-parallel evaluation); printed as a digest, since 2^n rows are of no use to a reader."""
+    import hashlib
+
+    n = len(universe)
+    size = 1 << n
+    full = (1 << size) - 1
+    masks = {}
+    for i, a in enumerate(universe):
+        # assignments (numbered 0..2^n-1) in which atom i is true: bit i of the assignment number is set
+        block = ((1 << (1 << i)) - 1) << (1 << i)  # 2^i zeros then 2^i ones
+        period = 1 << (i + 1)
+        m = 0
+        for k in range(size // period):
+            m |= block << (k * period)
+        masks[a] = m
+    per = {}
+    for conds, out in rows:
+        sat = full
+        for t, pol in conds:
+            if t.startswith("ALL["):
+                allv = full
+                for mname, want in _members(t):
+                    allv &= masks[mname] if want else (full & ~masks[mname])
+                sat &= allv if pol else (full & ~allv)
+            else:
+                sat &= masks[t] if pol else (full & ~masks[t])
+        per[out] = per.get(out, 0) | sat
+    table = []
+    for out, sat in per.items():
+        if sat:
+            digest = hashlib.sha1(sat.to_bytes(size // 8 + 1, "little")).hexdigest()[:12]
+            table.append(f"[truth table {digest} over {', '.join(universe)}: {bin(sat).count('1')} of {size} cases] {out}")
+    return sorted(table)
+
+
 def _case_table(rows):
     import itertools
 
@@ -224,7 +299,9 @@ def _case_table(rows):
             else:
                 universe.add(t)
     universe = sorted(universe)
-    if len(universe) > 10:
+    if 10 < len(universe) <= 18:
+        return _truth_tables(universe, rows)
+    if len(universe) > 18:
         return sorted("[" + " and ".join(("" if pol else "not ") + t for t, pol in conds) + "] " + out for conds, out in rows)
     table = set()
     for values in itertools.product((True, False), repeat=len(universe)):
@@ -334,6 +411,7 @@ def reference_paths(source: str, params=None, like=None, repo=None):
     """Paths of a reference model; with `like` (the implementation's FuncInfo) its calls are put into the same positional
     spelling as the parsed repository (sa.callnorm), in the implementation's class/module context."""
     fn = ast.parse(source.strip("\n")).body[0]
+    normal._tail_pass(fn)
     normal._allany_pass(fn)
     normal._redundant_guard_pass(fn)
     if like is not None and repo is not None:
